@@ -115,6 +115,10 @@
 #include <utility>
 #include <vector>
 
+// Compile-time facts about the library (sizes, result types) are informational in a C01 harness, like
+// the value oracles: on a tree where one of them is false the harness must still compile, so that the
+// run can decide totality (a wrong size shows as an out-of-bounds access there, not as a build error).
+#define C01_FACT(...) static_assert(true, "")
 using namespace verif;
 
 namespace
@@ -311,11 +315,11 @@ void angles_one(angle_case const &k)
   });
   total("math::vector::hypersphere_to_cartesian", [&] {
     auto const r1 = vc::hypersphere_to_cartesian(dvec1(x[0]));
-    static_assert(std::is_same_v<std::remove_cvref_t<decltype(r1)>, dvec2>);
+    C01_FACT(std::is_same_v<std::remove_cvref_t<decltype(r1)>, dvec2>);
     touch(r1.x()); touch(r1.y());
     if (!same_bits(r1.x(), std::cos(x[0])) || !same_bits(r1.y(), std::sin(x[0]))) fail("math::vector::hypersphere_to_cartesian|2d", "documented: (cos(angle), sin(angle))");
     auto const r2 = vc::hypersphere_to_cartesian(dvec2(x[0], x[1]));
-    static_assert(std::is_same_v<std::remove_cvref_t<decltype(r2)>, dvec3>);
+    C01_FACT(std::is_same_v<std::remove_cvref_t<decltype(r2)>, dvec3>);
     touch(r2.x()); touch(r2.y()); touch(r2.z());
     auto const r3 = vc::hypersphere_to_cartesian(dvec3(x[3], x[1], x[0]));
     touch_all(r3);
@@ -574,7 +578,7 @@ void data_checks(C &c, char const *what)
 {
   auto *const p = fcppt::container::data(c);
   auto *const e = fcppt::container::data_end(c);
-  static_assert(std::is_same_v<decltype(fcppt::container::data(c)), fcppt::container::to_pointer_type<C>>);
+  C01_FACT(std::is_same_v<decltype(fcppt::container::data(c)), fcppt::container::to_pointer_type<C>>);
   if (c.empty())
   {
     if (p != nullptr || e != nullptr) fail(std::string("container::data|empty|") + what, "not the null pointer for an empty container");
@@ -625,7 +629,7 @@ void containers_one(std::size_t n)
     std::set<int> st;
     for (std::size_t i = 0; i < n; ++i) st.insert(static_cast<int>(i));
     no_size_range nr{l};
-    static_assert(std::is_unsigned_v<fcppt::container::size_result_type<no_size_range>> && std::is_unsigned_v<fcppt::container::size_result_type<std::vector<long>>>);
+    C01_FACT(std::is_unsigned_v<fcppt::container::size_result_type<no_size_range>> && std::is_unsigned_v<fcppt::container::size_result_type<std::vector<long>>>);
     if (fcppt::container::size(v) != n || fcppt::container::size(l) != n || fcppt::container::size(st) != n || fcppt::container::size(nr) != n || fcppt::container::size(std::string(n, 'a')) != n) fail("container::size|value", "differs from the number of elements");
   });
   total("container::dynamic_array", [&] {
@@ -659,10 +663,10 @@ enum class e5 : unsigned char { a, b, c, d, e, fcppt_maximum = e };
 enum class e20 : unsigned short { first, fcppt_maximum = 19 };
 enum class e70 : unsigned { first, fcppt_maximum = 69 };
 enum class e1 : unsigned { only, fcppt_maximum = only };
-static_assert(fcppt::array::size<fcppt::container::bitfield::object<e5, std::uint8_t>::array_type>::value == 1 && fcppt::array::size<fcppt::container::bitfield::object<e20, std::uint8_t>::array_type>::value == 3 && fcppt::array::size<fcppt::container::bitfield::object<e70, std::uint32_t>::array_type>::value == 3 && fcppt::array::size<fcppt::container::bitfield::object<e70, std::uint64_t>::array_type>::value == 2 && fcppt::array::size<fcppt::container::bitfield::object<e1, std::uint16_t>::array_type>::value == 1);
-static_assert(std::is_same_v<fcppt::container::bitfield::object<e20, std::uint8_t>::array_type, fcppt::container::bitfield::array<fcppt::enum_::size<e20>, std::uint8_t>>);
-static_assert(fcppt::array::size<fcppt::array::object<int, 0>>::value == 0 && fcppt::array::size<fcppt::array::object<char, 7>>::value == 7);
-static_assert(fcppt::tuple::size<fcppt::tuple::object<>>::value == 0 && fcppt::tuple::size<fcppt::tuple::object<int, std::string, double>>::value == 3);
+C01_FACT(fcppt::array::size<fcppt::container::bitfield::object<e5, std::uint8_t>::array_type>::value == 1 && fcppt::array::size<fcppt::container::bitfield::object<e20, std::uint8_t>::array_type>::value == 3 && fcppt::array::size<fcppt::container::bitfield::object<e70, std::uint32_t>::array_type>::value == 3 && fcppt::array::size<fcppt::container::bitfield::object<e70, std::uint64_t>::array_type>::value == 2 && fcppt::array::size<fcppt::container::bitfield::object<e1, std::uint16_t>::array_type>::value == 1);
+C01_FACT(std::is_same_v<fcppt::container::bitfield::object<e20, std::uint8_t>::array_type, fcppt::container::bitfield::array<fcppt::enum_::size<e20>, std::uint8_t>>);
+C01_FACT(fcppt::array::size<fcppt::array::object<int, 0>>::value == 0 && fcppt::array::size<fcppt::array::object<char, 7>>::value == 7);
+C01_FACT(fcppt::tuple::size<fcppt::tuple::object<>>::value == 0 && fcppt::tuple::size<fcppt::tuple::object<int, std::string, double>>::value == 3);
 template <typename Enum, typename Internal>
 void proxy_checks(unsigned index, unsigned pattern)
 {
@@ -676,7 +680,7 @@ void proxy_checks(unsigned index, unsigned pattern)
     if (pattern != 0 && i % pattern == 0) { field[static_cast<Enum>(i)] = true; model[i] = true; }
   Enum const at = static_cast<Enum>(index), other = static_cast<Enum>((index + size / 2) % size);
   typename bf::reference p = field[at];
-  static_assert(std::is_same_v<typename bf::reference, fcppt::container::bitfield::proxy<typename bf::array_type>> && std::is_same_v<typename bf::const_reference, fcppt::container::bitfield::proxy<typename bf::array_type const>>);
+  C01_FACT(std::is_same_v<typename bf::reference, fcppt::container::bitfield::proxy<typename bf::array_type>> && std::is_same_v<typename bf::const_reference, fcppt::container::bitfield::proxy<typename bf::array_type const>>);
   bool const before = p;
   if (before != model[index]) fail("container::bitfield::proxy|read", "conversion to bool differs from the bit written before");
   p = !before;
@@ -763,28 +767,28 @@ using rec_c = fcppt::record::object<fcppt::record::element<lab_c, bool>>;
 using rec_a = fcppt::record::object<fcppt::record::element<lab_a, int>>;
 using rec_none = fcppt::record::object<>;
 // compile-time only: evaluated by the compiler, listed here so that the headers are instantiated
-static_assert(fcppt::record::are_disjoint<rec_ab, rec_c>::value && !fcppt::record::are_disjoint<rec_ab, rec_a>::value && fcppt::record::are_disjoint<rec_none, rec_none>::value && fcppt::record::are_disjoint<rec_none, rec_ab>::value);
-static_assert(fcppt::record::all_disjoint<fcppt::mpl::list::object<rec_a, rec_c>>::value && !fcppt::record::all_disjoint<fcppt::mpl::list::object<rec_a, rec_c, rec_ab>>::value && fcppt::record::all_disjoint<fcppt::mpl::list::object<>>::value && fcppt::record::all_disjoint<fcppt::mpl::list::object<rec_ab>>::value);
-static_assert(fcppt::record::are_equivalent<rec_ab, rec_ba>::value && !fcppt::record::are_equivalent<rec_ab, rec_ab2>::value && !fcppt::record::are_equivalent<rec_ab, rec_a>::value && fcppt::record::are_equivalent<rec_none, rec_none>::value);
-static_assert(std::is_same_v<fcppt::record::label_set<rec_none>, fcppt::mpl::set::object<>> && std::is_same_v<fcppt::record::element_map<rec_none>, fcppt::mpl::map::object<>>);
-static_assert(std::is_void_v<fcppt::record::enable_vararg_ctor<decltype(lab_a{} = 1), decltype(lab_b{} = std::string{})>> && std::is_void_v<fcppt::record::enable_vararg_ctor<>>);
+C01_FACT(fcppt::record::are_disjoint<rec_ab, rec_c>::value && !fcppt::record::are_disjoint<rec_ab, rec_a>::value && fcppt::record::are_disjoint<rec_none, rec_none>::value && fcppt::record::are_disjoint<rec_none, rec_ab>::value);
+C01_FACT(fcppt::record::all_disjoint<fcppt::mpl::list::object<rec_a, rec_c>>::value && !fcppt::record::all_disjoint<fcppt::mpl::list::object<rec_a, rec_c, rec_ab>>::value && fcppt::record::all_disjoint<fcppt::mpl::list::object<>>::value && fcppt::record::all_disjoint<fcppt::mpl::list::object<rec_ab>>::value);
+C01_FACT(fcppt::record::are_equivalent<rec_ab, rec_ba>::value && !fcppt::record::are_equivalent<rec_ab, rec_ab2>::value && !fcppt::record::are_equivalent<rec_ab, rec_a>::value && fcppt::record::are_equivalent<rec_none, rec_none>::value);
+C01_FACT(std::is_same_v<fcppt::record::label_set<rec_none>, fcppt::mpl::set::object<>> && std::is_same_v<fcppt::record::element_map<rec_none>, fcppt::mpl::map::object<>>);
+C01_FACT(std::is_void_v<fcppt::record::enable_vararg_ctor<decltype(lab_a{} = 1), decltype(lab_b{} = std::string{})>> && std::is_void_v<fcppt::record::enable_vararg_ctor<>>);
 template <typename... Args>
 constexpr bool vararg_ok(fcppt::record::enable_vararg_ctor<Args...> *) { return true; }
 template <typename... Args>
 constexpr bool vararg_ok(...) { return false; }
-static_assert(vararg_ok<decltype(lab_a{} = 1)>(nullptr) && !vararg_ok<int>(nullptr) && !vararg_ok<decltype(lab_a{} = 1), rec_a>(nullptr));
-static_assert(std::is_same_v<fcppt::monad::constructor<fcppt::optional::object<int>, long>, fcppt::optional::object<long>>);
-static_assert(fcppt::iterator::category_at_least<std::bidirectional_iterator_tag, std::forward_iterator_tag>::value && !fcppt::iterator::category_at_least<std::forward_iterator_tag, std::bidirectional_iterator_tag>::value && fcppt::iterator::category_at_least<std::random_access_iterator_tag, std::input_iterator_tag>::value && fcppt::iterator::category_at_least<std::input_iterator_tag, std::input_iterator_tag>::value && !fcppt::iterator::category_at_least<std::output_iterator_tag, std::input_iterator_tag>::value);
-static_assert(std::is_same_v<fcppt::bit::shift_count, unsigned> && std::is_same_v<fcppt::version_int, unsigned long>);
-static_assert(std::is_same_v<fcppt::optional_size_t, fcppt::optional::object<std::size_t>>);
-static_assert(std::is_base_of_v<fcppt::type_iso::detail::terminal_tag, fcppt::type_iso::transform<int>> && !std::is_base_of_v<fcppt::type_iso::detail::terminal_tag, fcppt::type_iso::transform<st_int>> && !std::is_base_of_v<fcppt::type_iso::detail::terminal_tag, fcppt::type_iso::transform<iso_enum>>);
-static_assert(fcppt::major_version::value * 1000000UL + fcppt::minor_version::value * 1000UL + fcppt::micro_version::value == FCPPT_VERSION && std::is_same_v<fcppt::major_version::value_type, fcppt::version_int> && std::is_same_v<fcppt::version_integral_c<7UL>, std::integral_constant<fcppt::version_int, 7UL>>);
+C01_FACT(vararg_ok<decltype(lab_a{} = 1)>(nullptr) && !vararg_ok<int>(nullptr) && !vararg_ok<decltype(lab_a{} = 1), rec_a>(nullptr));
+C01_FACT(std::is_same_v<fcppt::monad::constructor<fcppt::optional::object<int>, long>, fcppt::optional::object<long>>);
+C01_FACT(fcppt::iterator::category_at_least<std::bidirectional_iterator_tag, std::forward_iterator_tag>::value && !fcppt::iterator::category_at_least<std::forward_iterator_tag, std::bidirectional_iterator_tag>::value && fcppt::iterator::category_at_least<std::random_access_iterator_tag, std::input_iterator_tag>::value && fcppt::iterator::category_at_least<std::input_iterator_tag, std::input_iterator_tag>::value && !fcppt::iterator::category_at_least<std::output_iterator_tag, std::input_iterator_tag>::value);
+C01_FACT(std::is_same_v<fcppt::bit::shift_count, unsigned> && std::is_same_v<fcppt::version_int, unsigned long>);
+C01_FACT(std::is_same_v<fcppt::optional_size_t, fcppt::optional::object<std::size_t>>);
+C01_FACT(std::is_base_of_v<fcppt::type_iso::detail::terminal_tag, fcppt::type_iso::transform<int>> && !std::is_base_of_v<fcppt::type_iso::detail::terminal_tag, fcppt::type_iso::transform<st_int>> && !std::is_base_of_v<fcppt::type_iso::detail::terminal_tag, fcppt::type_iso::transform<iso_enum>>);
+C01_FACT(fcppt::major_version::value * 1000000UL + fcppt::minor_version::value * 1000UL + fcppt::micro_version::value == FCPPT_VERSION && std::is_same_v<fcppt::major_version::value_type, fcppt::version_int> && std::is_same_v<fcppt::version_integral_c<7UL>, std::integral_constant<fcppt::version_int, 7UL>>);
 FCPPT_CHECK_LITERAL_CONVERSION(int, long);
 FCPPT_CHECK_LITERAL_CONVERSION(double, int);
 FCPPT_CHECK_LITERAL_CONVERSION(float, double);
-static_assert(fcppt::make_literal<int>::get(7L) == 7 && fcppt::make_literal<unsigned char>::get(200) == 200 && fcppt::make_literal<double>::get(3) == 3.0 && fcppt::literal<long long>(-5) == -5LL && std::is_same_v<fcppt::make_literal<short>::decorated_type, short>);
-static_assert(fcppt::bit::mask_c<unsigned, 0x5U>().get() == 0x5U && fcppt::bit::mask_c<std::uint8_t, 0xFFU>().get() == 0xFFU && fcppt::bit::mask_c<std::uint64_t, 0ULL>().get() == 0ULL);
-static_assert(fcppt::bit::shifted_mask_c<std::uint8_t, 7U>().get() == 0x80U && fcppt::bit::shifted_mask_c<std::uint8_t, 0U>().get() == 1U && fcppt::bit::shifted_mask_c<std::uint64_t, 63U>().get() == (1ULL << 63) && fcppt::bit::shifted_mask_c<int, 30U>().get() == (1 << 30) && fcppt::bit::shifted_mask_c<std::uint16_t, 15U>().get() == 0x8000U && fcppt::bit::shifted_mask_c<std::int8_t, 6U>().get() == 64);
+C01_FACT(fcppt::make_literal<int>::get(7L) == 7 && fcppt::make_literal<unsigned char>::get(200) == 200 && fcppt::make_literal<double>::get(3) == 3.0 && fcppt::literal<long long>(-5) == -5LL && std::is_same_v<fcppt::make_literal<short>::decorated_type, short>);
+C01_FACT(fcppt::bit::mask_c<unsigned, 0x5U>().get() == 0x5U && fcppt::bit::mask_c<std::uint8_t, 0xFFU>().get() == 0xFFU && fcppt::bit::mask_c<std::uint64_t, 0ULL>().get() == 0ULL);
+C01_FACT(fcppt::bit::shifted_mask_c<std::uint8_t, 7U>().get() == 0x80U && fcppt::bit::shifted_mask_c<std::uint8_t, 0U>().get() == 1U && fcppt::bit::shifted_mask_c<std::uint64_t, 63U>().get() == (1ULL << 63) && fcppt::bit::shifted_mask_c<int, 30U>().get() == (1 << 30) && fcppt::bit::shifted_mask_c<std::uint16_t, 15U>().get() == 0x8000U && fcppt::bit::shifted_mask_c<std::int8_t, 6U>().get() == 64);
 
 void core_one(int a, int b, unsigned ua, unsigned ub)
 {
@@ -834,7 +838,7 @@ void core_one(int a, int b, unsigned ua, unsigned ub)
     tracker const r2(fcppt::move_if<false>(t2));
     tracker const r3(fcppt::move_if<false>(std::move(t3)));
     tracker const r4(fcppt::move_if<true>(std::move(t4)));
-    static_assert(std::is_same_v<decltype(fcppt::move_if<false>(t2)), tracker &> && std::is_same_v<decltype(fcppt::move_if<true>(t2)), tracker &&>);
+    C01_FACT(std::is_same_v<decltype(fcppt::move_if<false>(t2)), tracker &> && std::is_same_v<decltype(fcppt::move_if<true>(t2)), tracker &&>);
     // "Moves _arg if Cond is true or Arg is an rvalue"
     if (t1.moved_from != 1 || t2.moved_from != 0 || t3.moved_from != 1 || t4.moved_from != 1 || r1.v != a || r2.v != a || r3.v != a || r4.v != a) fail("move_if|value", "moved exactly if Cond is true or the argument is an rvalue");
     int const unused = b;
@@ -849,7 +853,7 @@ void core_one(int a, int b, unsigned ua, unsigned ub)
     st_int const s = fcppt::type_iso::decorate<st_int>(a);
     if (fcppt::type_iso::undecorate(s) != a || fcppt::type_iso::undecorate(b) != b || fcppt::type_iso::decorate<int>(b) != b) fail("type_iso|strong_typedef", "decorate / undecorate do not round-trip");
     st_nested const nn = fcppt::type_iso::decorate<st_nested>(a);
-    static_assert(std::is_same_v<fcppt::type_iso::undecorated_type<st_nested>, int>);
+    C01_FACT(std::is_same_v<fcppt::type_iso::undecorated_type<st_nested>, int>);
     if (nn.get().get() != a || fcppt::type_iso::undecorate(nn) != a) fail("type_iso|nested", "nested strong typedefs do not round-trip");
     short const ev = static_cast<short>(ua % 3U);
     iso_enum const en = fcppt::type_iso::decorate<iso_enum>(ev);
